@@ -73,7 +73,7 @@ func c07Generate(seed uint64, tier string, index int) json.RawMessage {
 		p.Allocators = r.Range(1, 2)
 		p.Node = nodeOpts{RevCacheSize: -1, FeedWorkers: r.Range(1, 2), NumVB: 4,
 			SyncFn: `function(doc){ if (doc.reject) { throw({forbidden: "no"}); } channel(doc.channels); if (doc.grant) { access(doc.grant, "g"); } }`}
-		p.Node.AllowConflicts = r.Chance(300)
+		p.Node.AllowConflicts = r.Chance(500)
 	}
 	nt := r.Range(1, 4)
 	if nt < p.Allocators {
@@ -97,8 +97,10 @@ func c07Generate(seed uint64, tier string, index int) json.RawMessage {
 				}
 			} else {
 				switch x := r.Intn(20); {
-				case x < 9:
+				case x < 6:
 					op = c07Op{Kind: "put", Doc: r.Intn(3)}
+				case x < 9:
+					op = c07Op{Kind: "push", Doc: r.Intn(2)}
 				case x < 11:
 					op = c07Op{Kind: "reject", Doc: r.Intn(3)}
 				case x < 13:
@@ -114,6 +116,19 @@ func c07Generate(seed uint64, tier string, index int) json.RawMessage {
 			prog = append(prog, op)
 		}
 		p.Tasks = append(p.Tasks, prog)
+	}
+	if p.Shape == "db" && r.Chance(350) {
+		// hot-document plans: several writers push sibling branches onto one document, so a
+		// write can lose the compare-and-swap race more than once and still be accepted
+		p.Node.AllowConflicts = true
+		p.Tasks = nil
+		for t := 0; t < r.Range(3, 4); t++ {
+			var prog []c07Op
+			for i := 0; i < r.Range(2, 4); i++ {
+				prog = append(prog, c07Op{Kind: []string{"push", "push", "put"}[r.Intn(3)], Doc: 0})
+			}
+			p.Tasks = append(p.Tasks, prog)
+		}
 	}
 	if p.Faulty {
 		p.Cfg.MaxFaults = r.Range(1, 4)
@@ -556,6 +571,22 @@ func c07RunDB(env *verifsim.Env, p *c07Plan) *verifsim.Violation {
 						body[BodyDeleted] = true
 					}
 					_, _, err := coll.Put(ctx, id, body)
+					rec.End(nil, err)
+				case "push":
+					// a pushed revision with ancestry: with conflicts allowed it is accepted as a sibling
+					// branch even when another writer got in first, so its CAS retries succeed
+					rec := t.Begin("push", id)
+					parent := ""
+					if d, err := coll.GetDocument(ctx, id, DocUnmarshalSync); err == nil && d != nil {
+						parent = d.GetRevTreeID()
+					}
+					gen, _ := ParseRevID(ctx, parent)
+					newRev := fmt.Sprintf("%d-%s", gen+1, strings.ReplaceAll(tok, ".", "x"))
+					hist := []string{newRev}
+					if parent != "" {
+						hist = append(hist, parent)
+					}
+					_, _, err := coll.PutExistingRevWithBody(ctx, id, Body{"tok": tok, "channels": []string{"A"}}, hist, !p.Node.AllowConflicts, ExistingVersionWithUpdateToHLV)
 					rec.End(nil, err)
 				case "conflict":
 					rec := t.Begin("conflict", id)
